@@ -398,4 +398,131 @@ theorem clip_refines {rb : RB} {a : AState} (wf : WF rb) (R : Refines rb a) (rec
     intro d L C
     unfold absMaskedAt; rw [hmask, hcell]
 
+/-! ## Operations that only change mask depths: `mask`, `restore` -/
+
+/-- Two cells that differ at most in their mask depth. -/
+def SameButMask (c c' : Cell) : Prop :=
+  c'.state = c.state ∧ c'.cols = c.cols ∧ c'.pen = c.pen ∧ c'.text = c.text ∧ c'.offs = c.offs ∧ c'.lmask = c.lmask ∧ c'.cp = c.cp
+
+theorem RowWF_congr {n : Int} {row row' : Row} (h : RowWF n row) (hs : ∀ k, SameButMask (row.get k) (row'.get k)) :
+    RowWF n row' := by
+  have s : ∀ k, (row'.get k).state = (row.get k).state := fun k => (hs k).1
+  have c : ∀ k, (row'.get k).cols = (row.get k).cols := fun k => (hs k).2.1
+  refine ⟨?_, ?_, ?_, ?_, ?_, ?_⟩
+  · intro k a b x; rw [c]; rw [s] at x; exact h.cont_lo k a b x
+  · intro k a b x; rw [c, s]; rw [s] at x; exact h.cont_start k a b x
+  · intro k a b x; rw [c, c]; rw [s] at x; exact h.cont_in k a b x
+  · intro k a b x; rw [c]; rw [s] at x; exact h.start_len k a b x
+  · intro k j a b x y z; rw [s, c]; rw [s] at x; rw [c] at z; exact h.start_run k j a b x y z
+  · intro k a b x; rw [c]; rw [s] at x; exact h.one k a b x
+
+theorem rowContent_congr {row row' : Row} (hs : ∀ k, SameButMask (row.get k) (row'.get k)) (k : Int) :
+    rowContent row' k = rowContent row k := by
+  unfold rowContent cellContent
+  obtain ⟨a1, a2, a3, a4, a5, a6, a7⟩ := hs k
+  obtain ⟨b1, b2, b3, b4, b5, b6, b7⟩ := hs (row.get k).cols
+  rw [a1, a2, b1, b3, b4, b5, b6, b7, a3, a4, a5, a6, a7]
+
+/-- Everything about an operation that changes nothing but mask depths, except the masks themselves. -/
+theorem maskonly_facts {rb rb' : RB} (hl : rb'.lines = rb.lines) (hc : rb'.cols = rb.cols)
+    (hs : ∀ L C, SameButMask (rb.cell L C) (rb'.cell L C)) :
+    (∀ L C, absContent rb' L C = absContent rb L C) ∧
+    (∀ l, RowWF rb.cols (rb.cells l) → RowWF rb'.cols (rb'.cells l)) := by
+  refine ⟨fun L C => ?_, fun l h => ?_⟩
+  · rw [absContent_eq, absContent_eq, hl, hc, rowContent_congr (fun k => hs L k)]
+  · rw [hc]; exact RowWF_congr h (fun k => hs l k)
+
+theorem FramesRel_congr_lt {rb rb' : RB} :
+    ∀ (fs : List Frame) (gs : List AFrame) (d : Int),
+      (∀ d', d' < d → ∀ L C, absMaskedAt rb' d' L C = absMaskedAt rb d' L C) →
+      FramesRel rb d fs gs → FramesRel rb' d fs gs := by
+  intro fs
+  induction fs with
+  | nil => intro gs d _ x; cases gs <;> simpa [FramesRel] using x
+  | cons f fs ih =>
+    intro gs d h x
+    cases gs with
+    | nil => simp [FramesRel] at x
+    | cons g gs =>
+      unfold FramesRel at x ⊢
+      refine ⟨⟨x.1.1, x.1.2.1, fun L C => ?_, x.1.2.2.2⟩, ih gs (d - 1) (fun d' hd => h d' (by omega)) x.2⟩
+      rw [h (d - 1) (by omega)]; exact x.1.2.2.1 L C
+
+theorem maskHole_bounds (rb : RB) (m : Rect) :
+    (maskHole rb m).top = max 0 (m.top + rb.xlLine) ∧ (maskHole rb m).bottom = m.top + rb.xlLine + m.lines ∧
+    (maskHole rb m).left = max 0 (m.left + rb.xlCol) ∧ (maskHole rb m).right = m.left + rb.xlCol + m.cols := by
+  unfold maskHole Rect.translate Rect.bottom Rect.right
+  simp only
+  by_cases h1 : m.top + rb.xlLine < 0 <;> by_cases h2 : m.left + rb.xlCol < 0 <;> simp [h1, h2] <;> omega
+
+theorem maskHole_iff (rb : RB) (m : Rect) (L C : Int) :
+    ((maskHole rb m).top ≤ L ∧ L < (maskHole rb m).bottom ∧ L < rb.lines ∧ (maskHole rb m).left ≤ C ∧
+      C < (maskHole rb m).right ∧ C < rb.cols) ↔
+    (inBuf rb.lines rb.cols L C = true ∧ m.memb (L - rb.xlLine) (C - rb.xlCol) = true) := by
+  rw [inBuf_iff, memb_iff]
+  obtain ⟨a, b, c, d⟩ := maskHole_bounds rb m
+  rw [a, b, c, d]
+  unfold Rect.Mem Rect.bottom Rect.right
+  omega
+
+theorem mask_refines {rb : RB} {a : AState} (wf : WF rb) (R : Refines rb a) (m : Rect) :
+    WF (Tickit.RB.mask rb m) ∧ Refines (Tickit.RB.mask rb m) (RBAbs.mask a m) := by
+  have hd : 0 ≤ rb.depth := by rw [wf.depth]; omega
+  have hcell : ∀ L C, (Tickit.RB.mask rb m).cell L C =
+      if (inBuf rb.lines rb.cols L C = true ∧ m.memb (L - rb.xlLine) (C - rb.xlCol) = true) ∧ (rb.cell L C).maskdepth = -1
+      then { rb.cell L C with maskdepth := rb.depth } else rb.cell L C := by
+    intro L C
+    show (if _ then _ else _) = _
+    have := maskHole_iff rb m L C
+    by_cases x : (inBuf rb.lines rb.cols L C = true ∧ m.memb (L - rb.xlLine) (C - rb.xlCol) = true) ∧ (rb.cell L C).maskdepth = -1
+    · rw [if_pos x, if_pos]
+      have y := this.2 x.1
+      exact ⟨y.1, y.2.1, y.2.2.1, y.2.2.2.1, y.2.2.2.2.1, y.2.2.2.2.2, x.2⟩
+    · rw [if_neg x, if_neg]
+      intro y
+      exact x ⟨this.1 ⟨y.1, y.2.1, y.2.2.1, y.2.2.2.1, y.2.2.2.2.1, y.2.2.2.2.2.1⟩, y.2.2.2.2.2.2⟩
+  have hs : ∀ L C, SameButMask (rb.cell L C) ((Tickit.RB.mask rb m).cell L C) := by
+    intro L C; rw [hcell]; split <;> simp [SameButMask]
+  obtain ⟨hcont, hrows⟩ := maskonly_facts (rb := rb) (rb' := Tickit.RB.mask rb m) rfl rfl hs
+  have hmd : ∀ L C, ((Tickit.RB.mask rb m).cell L C).maskdepth =
+      if (inBuf rb.lines rb.cols L C = true ∧ m.memb (L - rb.xlLine) (C - rb.xlCol) = true) ∧ (rb.cell L C).maskdepth = -1
+      then rb.depth else (rb.cell L C).maskdepth := by
+    intro L C; rw [hcell]; split <;> rfl
+  refine ⟨⟨wf.size, fun l x y => hrows l (wf.rows l x y), ?_, ?_, wf.depth, wf.clip, wf.frames, wf.aborted, wf.fuelOut⟩,
+    ⟨R.lines, R.cols, fun L C => (R.content L C).trans (hcont L C).symm, ?_, R.vc, R.xlLine, R.xlCol, R.clip, R.pen, ?_⟩⟩
+  · intro l c; rw [hmd]; have := wf.maskLB l c; split <;> omega
+  · intro l c; rw [hmd]; have := wf.maskUB l c; show _ ≤ rb.depth; split <;> omega
+  · intro L C
+    show (a.masked L C || (inBuf a.lines a.cols L C && m.memb (L - a.xlLine) (C - a.xlCol))) = absMasked (Tickit.RB.mask rb m) L C
+    rw [R.masked, R.lines, R.cols, R.xlLine, R.xlCol]
+    unfold absMasked
+    show _ = (inBuf rb.lines rb.cols L C && decide (((Tickit.RB.mask rb m).cell L C).maskdepth > -1))
+    rw [hmd]
+    have lb := wf.maskLB L C
+    apply bool_ext
+    simp only [Bool.or_eq_true, Bool.and_eq_true, decide_eq_true_eq]
+    constructor
+    · rintro (x | x)
+      · refine ⟨x.1, ?_⟩; split <;> omega
+      · refine ⟨x.1, ?_⟩
+        by_cases y : (rb.cell L C).maskdepth = -1
+        · rw [if_pos ⟨x, y⟩]; omega
+        · rw [if_neg (fun z => y z.2)]; omega
+    · intro x
+      by_cases y : (inBuf rb.lines rb.cols L C = true ∧ m.memb (L - rb.xlLine) (C - rb.xlCol) = true) ∧ (rb.cell L C).maskdepth = -1
+      · right; exact y.1
+      · rw [if_neg y] at x; left; exact x
+  · show FramesRel (Tickit.RB.mask rb m) rb.depth rb.stack a.stack
+    refine FramesRel_congr_lt _ _ _ ?_ R.stack
+    intro d' hd' L C
+    unfold absMaskedAt absMasked
+    show (inBuf rb.lines rb.cols L C && _ && _) = _
+    rw [hmd]
+    have lb := wf.maskLB L C
+    apply bool_ext
+    simp only [Bool.and_eq_true, decide_eq_true_eq]
+    constructor
+    · rintro ⟨⟨x, y⟩, z⟩; refine ⟨⟨x, ?_⟩, ?_⟩ <;> (split at y <;> split at z <;> omega)
+    · rintro ⟨⟨x, y⟩, z⟩; refine ⟨⟨x, ?_⟩, ?_⟩ <;> (split <;> omega)
+
 end Tickit.RB
